@@ -533,3 +533,30 @@ func VH_c11_fold_using_map() {
 	}
 	zz.Assert(list.FoldRightUsingMap(list.FromSeq(xs), z, g) == wr, "FoldRightUsingMap = right fold (Endo)")
 }
+
+// Option over inner semigroups whose Go zero value is NOT neutral (last, min, product): None is the identity on
+// both sides, two Somes combine through the inner Combine, and the result is associative.
+func VH_c11_option_inner_zero_not_neutral() {
+	a, b, c := mkOpt("a"), mkOpt("b"), mkOpt("c")
+	var op func(x, y int) int
+	switch zz.Choice("inner", 3) {
+	case 0:
+		op = func(x, y int) int { return y } // last
+	case 1:
+		op = func(x, y int) int { return min(x, y) }
+	case 2:
+		op = func(x, y int) int { return x * y }
+	}
+	want := func(x, y fp.Option[int]) fp.Option[int] {
+		switch {
+		case x.IsEmpty():
+			return y
+		case y.IsEmpty():
+			return x
+		}
+		return fp.Some(op(x.Get(), y.Get()))
+	}
+	s := semigroup.Option(semigroup.New(op))
+	zz.Assert(optEq(s.Combine(a, b), want(a, b)), "semigroup.Option: None is neutral on both sides, Somes combine through the inner semigroup")
+	zz.Assert(optEq(s.Combine(s.Combine(a, b), c), s.Combine(a, s.Combine(b, c))), "semigroup.Option: associative over an inner semigroup whose zero value is not neutral")
+}
